@@ -17,7 +17,8 @@ RULE = ('same seeded program generator as C01 with operand reuse (legs shared th
 ASSUMPTIONS = ['shallow results (copy(deep=False), replace_label, add_trivial_leg, gauge_total_charge, '
                'unary/binary_blockwise, scale_axis, sort_legcharge, complex_conj) are documented to share block data']
 ANCHORS = base.ANCHORS
-REQUIRED_COUNTERS = {'monitor.fingerprints': 5000, 'op.linear': 20, 'op.tensordot': 20, 'op.transpose': 20,
+REQUIRED_COUNTERS = {'monitor.network_fingerprints': 300, 'network.results_mutated': 100, 'netop.get_theta': 10, 'netop.get_B': 10,
+                     'monitor.fingerprints': 5000, 'op.linear': 20, 'op.tensordot': 20, 'op.transpose': 20,
                      'op.setitem': 10, 'op.legops': 20}
 WEIGHTS = {'misc': 4.0, 'linear': 5.0, 'tensordot': 5.0, 'legops': 4.0, 'chargeops': 2.0}
 CONFIGS = {'quick': [('compiled', 1800, 11), ('pure', 800, 5)],
@@ -27,7 +28,8 @@ CONFIGS = {'quick': [('compiled', 1800, 11), ('pure', 800, 5)],
 def plan(tier, seed, jobs):
     units = []
     for cfg, n, nsh in CONFIGS[tier]:
-        units += shard(cfg, n, nsh, timeout=3000, time_budget=75 if tier == 'quick' else 1500)
+        units += shard(cfg, n, nsh, part='program', timeout=3000, time_budget=75 if tier == 'quick' else 1500)
+    units += shard('compiled', 240 if tier == 'quick' else 4000, 4, part='network', timeout=3000, time_budget=75 if tier == 'quick' else 1500)
     return units
 
 
@@ -36,4 +38,250 @@ def worker_init(ctx):
 
 
 def run_case(ctx, i):
+    if ctx.unit.get('part') == 'network':
+        return case_network(ctx, i)
     base.run_program(ctx, i, MONITORS, weights=WEIGHTS, readonly_legs=(i % 2 == 0 and ctx.config.startswith('pure')))
+
+
+# ------------------------------------------------------------------------------------------------
+# tensors stored inside an MPS / MPO / site while operations run on another reference
+# ------------------------------------------------------------------------------------------------
+def network_arrays(psi=None, H=None):
+    """All Arrays / numpy arrays an MPS (and MPO) own, for the fingerprint."""
+    import types
+    arrs, nds = [], []
+    if psi is not None:
+        arrs += list(psi._B)
+        for S in psi._S:
+            (arrs if hasattr(S, 'to_ndarray') else nds).append(S)
+        for site in set(psi.sites):
+            arrs += [site.get_op(n) for n in sorted(site.opnames)]
+    if H is not None:
+        arrs += list(H._W)
+    return [types.SimpleNamespace(arr=a) for a in arrs], nds
+
+
+class NetSnap:
+    def __init__(self, psi=None, H=None):
+        from vf import tshadow
+        self.psi, self.H = psi, H
+        slots, nds = network_arrays(psi, H)
+        self.snap = tshadow.snapshot(slots)
+        self.nds = [(a, a.tobytes(), a.shape, str(a.dtype)) for a in nds]
+        self.meta = self._meta()
+
+    def _meta(self):
+        psi, H = self.psi, self.H
+        m = []
+        if psi is not None:
+            m.append((tuple(psi.form), float(psi.norm), psi.bc, tuple(id(b) for b in psi._B), len(psi._S), tuple(psi.chi), psi.grouped))
+        if H is not None:
+            m.append((tuple(H.IdL), tuple(H.IdR), H.bc, tuple(id(w) for w in H._W), H.max_range, H.explicit_plus_hc))
+        return m
+
+    def diff(self):
+        from vf import tshadow
+        out = tshadow.diff_snapshot(self.snap)
+        for a, b, sh, dt in self.nds:
+            if a.tobytes() != b or a.shape != sh or str(a.dtype) != dt:
+                out.append(('singular-values-mutated', 'stored singular values changed'))
+        if self._meta() != self.meta:
+            out.append(('network-metadata-changed', 'form/norm/bc/tensor identities changed: %r -> %r' % (self.meta, self._meta())))
+        return out
+
+
+def case_network(ctx, i):
+    import numpy as np
+    import traceback
+    from tenpy.networks.mpo import MPOEnvironment
+    from vf import dense, tprog
+    import checks.C11 as C11
+    rng = ctx.rng
+    try:
+        H, ref, sites, kind, terms, strengths = C11.make_mpo(rng, L=int(rng.integers(3, 6)))
+    except C11._Skip:
+        ctx.count('skipped')
+        return
+    L = len(sites)
+    psi, vec, qt = C11.rand_state(rng, sites)
+    forms = [str(rng.choice(['A', 'B', 'C', 'Th', 'G'])) for _ in range(L)]
+    if rng.random() < 0.7:
+        psi.convert_form(forms)
+    else:
+        psi.convert_form(str(rng.choice(['A', 'B', 'Th'])))
+    case = {'sites': kind, 'L': L, 'forms': [tuple(f) if f is not None else None for f in psi.form], 'ops': []}
+    snap = NetSnap(psi, H)
+    ctx.count('network.cases')
+
+    def check(opname, what):
+        d = snap.diff()
+        ctx.count('monitor.network_fingerprints')
+        if d:
+            ctx.violation('%s:%s' % (opname, d[0][0]), '%s: %s' % (what, d[0][1]), dict(case))
+            return False
+        return True
+
+    def mutate(res, opname):
+        """Every public in-place method on a result that is a new object by the documentation; then re-check the network."""
+        objs = res if isinstance(res, (list, tuple)) else [res]
+        for r in objs:
+            if hasattr(r, 'to_ndarray') and hasattr(r, 'legs'):
+                how = tprog.Prog.mutate_in_place(None, r)
+                ctx.count('network.results_mutated')
+                if not check(opname, 'in-place methods (%s) on the result changed the network it came from' % how):
+                    return False
+            elif isinstance(r, np.ndarray) and r.size and r.flags.writeable:
+                r[...] = 7
+                ctx.count('network.results_mutated')
+                if not check(opname, 'writing into the returned ndarray changed the network it came from'):
+                    return False
+        return True
+
+    nops = int(rng.integers(3, 8))
+    for _ in range(nops):
+        k = int(rng.integers(0, 14))
+        j = int(rng.integers(0, L))
+        try:
+            if k == 0:
+                name = 'get_B'
+                form = [None, 'A', 'B', 'C', 'G', 'Th', (0.5, 0.5), (1., 1.)][int(rng.integers(8))]
+                if form is None:
+                    continue
+                cp = bool(rng.random() < 0.6)
+                res = psi.get_B(j, form=form, copy=cp)
+                case['ops'].append([name, j, str(form), cp])
+                # (copy=False is documented to possibly return a view: only the call itself is judged then)
+                ok = check(name, 'get_B(%d, form=%r)' % (j, form)) and (not cp or mutate(res, name))
+            elif k == 1:
+                name = 'get_theta'
+                n = int(rng.integers(1, min(3, L - j) + 1))
+                fL, fR = float(rng.choice([0., 0.5, 1.])), float(rng.choice([0., 0.5, 1.]))
+                res = psi.get_theta(j, n=n, formL=fL, formR=fR) if rng.random() < 0.5 else psi.get_theta(j, n=n)
+                case['ops'].append([name, j, n, fL, fR])
+                ok = check(name, 'get_theta(%d, n=%d)' % (j, n)) and mutate(res, name)
+            elif k == 2:
+                name = 'get_rho_segment'
+                seg = sorted(set(int(x) for x in rng.integers(0, L, size=2)))
+                res = psi.get_rho_segment(seg)
+                case['ops'].append([name, seg])
+                ok = check(name, 'get_rho_segment(%r)' % seg) and mutate(res, name)
+            elif k == 3:
+                name = 'copy'
+                psi2 = psi.copy()
+                case['ops'].append([name])
+                ok = check(name, 'copy()')
+                if ok:
+                    for b in psi2._B:
+                        if not mutate(b, 'copy'):
+                            ok = False
+                            break
+                    for S_ in psi2._S:
+                        if isinstance(S_, np.ndarray):
+                            S_[...] = 3.
+                    ok = ok and check('copy', 'writing into the singular values of the copy')
+            elif k == 4:
+                name = 'copy+inplace_mps_method'
+                psi2 = psi.copy()
+                which = int(rng.integers(0, 6))
+                opn = sorted(n_ for n_ in sites[j].opnames if not sites[j].op_needs_JW(n_))
+                if which == 0:
+                    psi2.apply_local_op(j, opn[int(rng.integers(len(opn)))], unitary=False)
+                elif which == 1:
+                    psi2.canonical_form()
+                elif which == 2:
+                    psi2.convert_form(str(rng.choice(['A', 'B', 'C', 'Th'])))
+                elif which == 3 and j < L - 1:
+                    psi2.swap_sites(j)
+                elif which == 4:
+                    psi2.group_sites(2)
+                else:
+                    psi2.norm = 5.
+                    psi2.set_B(j, psi2.get_B(j, form=None) * 2., form=psi2.form[j])
+                case['ops'].append([name, which, j])
+                ok = check(name, 'in-place MPS method no. %d on a copy' % which)
+            elif k == 5:
+                name = 'measurements'
+                opn = sorted(n_ for n_ in sites[0].opnames if all(n_ in s.opnames and not s.op_needs_JW(n_) for s in sites))
+                o = opn[int(rng.integers(len(opn)))]
+                psi.expectation_value(o)
+                psi.entanglement_entropy()
+                psi.correlation_function(o, o)
+                psi.overlap(psi)
+                psi.norm_test()
+                psi.get_total_charge()
+                case['ops'].append([name, o])
+                ok = check(name, 'expectation_value / correlation_function / entropy / overlap')
+            elif k == 6:
+                name = 'MPO.expectation_value'
+                H.expectation_value(psi)
+                if rng.random() < 0.5:
+                    H.variance(psi)
+                case['ops'].append([name])
+                ok = check(name, 'H.expectation_value(psi)')
+            elif k == 7:
+                name = 'MPOEnvironment'
+                env = MPOEnvironment(psi, H, psi)
+                res = [env.get_LP(j), env.get_RP(j)]
+                env.full_contraction(j)
+                case['ops'].append([name, j])
+                ok = check(name, 'MPOEnvironment.get_LP/get_RP') and mutate(res, name)
+            elif k == 8:
+                name = 'MPO.get_W(copy=True)'
+                res = H.get_W(j, copy=True)
+                case['ops'].append([name, j])
+                ok = check(name, 'get_W(%d, copy=True)' % j) and mutate(res, name)
+            elif k == 9:
+                name = 'MPO.copy+inplace'
+                import copy as _copy
+                H2 = _copy.deepcopy(H)  # (MPO.copy() is documented as a shallow copy)
+                which = int(rng.integers(0, 3))
+                if which == 0:
+                    H2.sort_legcharges()
+                elif which == 1:
+                    H2.group_sites(2)
+                else:
+                    for w in H2._W:
+                        w *= 2.
+                case['ops'].append([name, which])
+                ok = check(name, 'in-place MPO method no. %d on a copy' % which)
+            elif k == 10:
+                name = 'MPO.apply(copy)'
+                psi2 = psi.copy()
+                H.apply(psi2, {'compression_method': str(rng.choice(['SVD', 'zip_up'])), 'trunc_params': {'chi_max': 30}})
+                case['ops'].append([name])
+                ok = check(name, 'H.apply on a copy of psi')
+            elif k == 11:
+                name = 'MPO.dagger/add'
+                Hd = H.dagger()
+                Hs = H + H
+                ok = check(name, 'dagger / +')
+                res = [Hd.get_W(j), Hs.get_W(j)]
+                ok = ok and mutate(res, name)
+                case['ops'].append([name])
+            elif k == 12:
+                name = 'site.get_op(product)'
+                st = sites[j]
+                opn = sorted(n_ for n_ in st.opnames)
+                a, b = opn[int(rng.integers(len(opn)))], opn[int(rng.integers(len(opn)))]
+                res = st.get_op(a + ' ' + b)
+                case['ops'].append([name, a, b])
+                ok = check(name, 'get_op(%r)' % (a + ' ' + b)) and mutate(res, name)
+            else:
+                name = 'get_SL/get_SR'
+                psi.get_SL(j)
+                psi.get_SR(j)
+                psi.entanglement_spectrum()
+                ok = check(name, 'get_SL / get_SR / entanglement_spectrum')
+                case['ops'].append([name, j])
+            ctx.count('netop.' + name)
+            if not ok:
+                return
+        except Exception as e:
+            tb = traceback.format_exc()
+            if '/tenpy/' in tb and not isinstance(e, (ValueError, NotImplementedError)):
+                ctx.count('network.op_raised.' + type(e).__name__)
+            continue
+    ctx.sig(('network', kind, L, tuple(str(o[0]) for o in case['ops'])), nontrivial=True)
+    if i % 40 == 0:
+        ctx.sample(case)
+
